@@ -620,7 +620,7 @@ func c08Width(c *Ctx, p *Prog, rule string) {
 			why := ""
 			for _, ws := range storesTo(fn, cellOwner, "width") {
 				// (a) width = RuneWidth(v) of the same value
-				if call, isCall := ws.Val.(*ssa.Call); isCall && strings.HasSuffix(calleeName(&call.Call), "go-runewidth.RuneWidth") {
+				if call, isCall := ws.Val.(*ssa.Call); isCall && isRuneWidthCall(call, v) {
 					if len(call.Call.Args) == 1 && call.Call.Args[0] == v {
 						// either unconditional w.r.t. the rune store, or guarded by currMain != v
 						if instrDominates(ws, s) || instrDominates(s, ws) || call.Block().Dominates(s.Block()) {
@@ -667,9 +667,9 @@ func c08Width(c *Ctx, p *Prog, rule string) {
 		for j, ws := range storesTo(fn, cellOwner, "width") {
 			key := fmt.Sprintf("%s:width-store#%d", short, j+1)
 			okW, why := false, ""
-			if call, isCall := ws.Val.(*ssa.Call); isCall && strings.HasSuffix(calleeName(&call.Call), "go-runewidth.RuneWidth") && len(call.Call.Args) == 1 {
+			if call, isCall := ws.Val.(*ssa.Call); isCall && len(call.Call.Args) == 1 {
 				for _, s := range stores {
-					if s.Val == call.Call.Args[0] {
+					if isRuneWidthCall(call, s.Val) {
 						okW, why = true, "RuneWidth of the rune stored to currMain"
 					}
 				}
@@ -804,4 +804,39 @@ func c08FillAll(c *Ctx, p *Prog, ms map[string]*ssa.Function) {
 		}
 	}
 	c.Check(bad == "", "C08-R2", "Fill:stores-every-cell", p.pos(fn.Pos()), "every pass of the loop over the cells stores rune, combining list, style and width "+bad)
+}
+
+// isRuneWidthCall: v is the width of rune `of`: go-runewidth's RuneWidth(of), or a package-local
+// wrapper around it that may only lower the answer to 0 (a blank) for some runes.
+func isRuneWidthCall(v ssa.Value, of ssa.Value) bool {
+	call, ok := v.(*ssa.Call)
+	if !ok || len(call.Call.Args) != 1 || call.Call.Args[0] != of {
+		return false
+	}
+	if strings.HasSuffix(calleeName(&call.Call), "go-runewidth.RuneWidth") {
+		return true
+	}
+	f := staticCallee(&call.Call)
+	if f == nil || len(f.Params) != 1 || len(f.Blocks) == 0 {
+		return false
+	}
+	n := 0
+	for _, r := range returnsOf(f) {
+		if len(r.Results) != 1 {
+			return false
+		}
+		res := r.Results[0]
+		if k, isK := constInt(res); isK {
+			if k != 0 {
+				return false // a wrapper may blank a rune, it may not give it columns
+			}
+			continue
+		}
+		inner, isCall := res.(*ssa.Call)
+		if !isCall || !strings.HasSuffix(calleeName(&inner.Call), "go-runewidth.RuneWidth") || inner.Call.Args[0] != ssa.Value(f.Params[0]) {
+			return false
+		}
+		n++
+	}
+	return n > 0
 }
